@@ -275,6 +275,7 @@ class Emitter:
         self.lines = []
         self.map = {}       # line number (1-based) -> dict
         self.fnspans = []   # (start, end, module, fn)
+        self.hint_lines = []  # lines of injected proof text (not code): a failure there is a proof-hint problem, not a code obligation
     def add(self, text, info=None):
         for ln in text.split('\n'):
             self.lines.append(ln)
@@ -395,7 +396,9 @@ def inject_fn(em, module, vc, header, body, is_trait_impl, struct_name):
             for tl, lab, tg in tail:
                 em.add(tl, dict(module=module, fn=name, kind='ensures', label=lab, tags=[t.strip() for t in tg.split(',') if t.strip()], text=tl))
         else:
+            h0 = em.lineno() + 1
             em.add(text)
+            em.hint_lines += list(range(h0, em.lineno() + 1))
         pos = p
     rest = body[pos:]
     if rest.strip('\n') != '':
@@ -590,6 +593,7 @@ def build(out_path, only=None):
     report['literals'] = lits
     report['line_map'] = {str(k): v for k, v in em.map.items()}
     report['fnspans'] = em.fnspans
+    report['hint_lines'] = em.hint_lines
     report['modules'] = stems
     report['n_lines'] = len(em.lines)
     return report
